@@ -358,21 +358,21 @@ static void cmpvec(Fails &F, const TC &c, char kind, const char *kname, int fram
       else if (std::fabs(r - cf) > 1e-3 * std::fabs(cf) + 1e-12) common = false;
     }
   std::string key = kf(c.fmt) + "-" + kname;
+  bool tiny_to_zero = false;
   if (!have) {
-    // every component is too small to measure a factor: try the unit mix-up factors explicitly
-    // (bohr<->Angstrom instead of nm<->Angstrom, nm<->Angstrom dropped or doubled, kJ<->kcal)
-    for (double k : {0.52917721 / 10.0, 10.0 / 0.52917721, 0.1, 10.0, 0.01, 100.0, 4.1868, 1 / 4.1868}) {
-      bool all = true;
-      for (size_t b = 0; b < exp.size() && all; b++)
-        for (int d = 0; d < 3; d++)
-          if (!(std::fabs(got[b][d] - k * exp[b][d]) <= tol(c.fmt, kind, k * exp[b][d]) * (1 + 1e-3) + 1e-3 * std::fabs(k * exp[b][d]))) all = false;
-      if (all) { cf = k; have = true; break; }
-    }
+    // no component is large enough to measure a factor: input class "only zero / last-digit values", all read back as 0
+    tiny_to_zero = true;
+    for (size_t b = 0; b < exp.size(); b++)
+      for (int d = 0; d < 3; d++)
+        if (std::fabs(got[b][d]) > tol(c.fmt, kind, 0.0)) tiny_to_zero = false;
   }
   if (have && common && std::fabs(cf - 1) > 1e-3 && std::isfinite(cf)) {
-    char b[64]; snprintf(b, sizeof b, "%.6g", cf);
-    F.add(key + "-wrong-scale", std::string(kname) + " read back scaled by " + b + ": frame " + std::to_string(frame) + " bead " +
-                                    std::to_string(bb) + " read " + v3(got[bb]) + " written " + v3(exp[bb]));
+    char b[64]; snprintf(b, sizeof b, "%.3g", cf);
+    F.add(key + "-scaled-by-" + b, std::string(kname) + " read back scaled by " + b + ": frame " + std::to_string(frame) + " bead " +
+                                       std::to_string(bb) + " read " + v3(got[bb]) + " written " + v3(exp[bb]));
+  } else if (tiny_to_zero) {
+    F.add(key + "-small-values-read-zero", std::string(kname) + " of a few units of the last printed digit come back as exactly 0: frame " +
+                                               std::to_string(frame) + " bead " + std::to_string(bb) + " read " + v3(got[bb]) + " written " + v3(exp[bb]));
   } else {
     // a permutation of the components?
     bool perm = false;
@@ -407,7 +407,7 @@ static void cmpbox(Fails &F, const TC &c, int frame, const Matrix3d &got, const 
   else if (!meq(c.fmt, e, ed) && meq(c.fmt, got, ed)) cls = "-offdiagonal-lost";
   else {
     double r = got(0, 0) / e(0, 0);
-    if (std::fabs(r - 1) > 1e-3 && meq(c.fmt, got / r, e)) cls = "-wrong-scale";
+    if (std::fabs(r - 1) > 1e-3 && meq(c.fmt, got / r, e)) { char b[32]; snprintf(b, sizeof b, "%.3g", r); cls = std::string("-scaled-by-") + b; }
   }
   F.add(kf(c.fmt) + "-box" + cls, "box of frame " + std::to_string(frame) + " read " + m3(got) + " written " + m3(e));
 }
@@ -734,18 +734,20 @@ static std::vector<TC> enumerate(bool thorough) {
   for (auto &fi : formats())
     for (int shim : fi.shims) {
       int n = (int)fi.P.size();
-      for (int q = 0; q < n * n * n; q++) {
-        TC c; c.fam = "rt"; c.fmt = fi.name; c.nb = 1; c.nf = 1; c.pat = 1000 + q; c.shim = shim;
-        if (thorough) { c.vf = fi.vfs.back(); c.box = fi.boxes.back(); }
-        all.push_back(c);
-      }
+      std::vector<int> bx = thorough ? fi.boxes : std::vector<int>{0}, vfs = thorough ? fi.vfs : std::vector<int>{0};
+      for (int box : bx)
+        for (int vf : vfs)
+          for (int q = 0; q < n * n * n; q++) {
+            TC c; c.fam = "rt"; c.fmt = fi.name; c.nb = 1; c.nf = 1; c.pat = 1000 + q; c.shim = shim; c.box = box; c.vf = vf;
+            all.push_back(c);
+          }
     }
   // 2. the product of the small parameters
   for (int nb = 1; nb <= maxnb; nb++)
     for (int nf = 1; nf <= maxnf; nf++)
       for (auto &fi : formats()) {
         if (fi.name == "dlpc" && nf > 1) continue;  // a CONFIG file holds one frame
-        for (int pat = 0; pat < (int)fi.P.size(); pat++)
+        for (int pat = 0; pat < (int)fi.P.size(); pat += (thorough ? 1 : 2))  // quick: every second cyclic shift
           for (int box : fi.boxes)
             for (int vf : fi.vfs)
               for (int nm = 0; nm < (fi.top ? 4 : 1); nm++)
@@ -830,10 +832,10 @@ int main(int argc, char **argv) {
   R.max_samples = 10;
   R.rule =
       "formats gro, xyz, pdb, lammps dump, dlpoly .dlph/.dlpc through TrjWriterFactory/TrjReaderFactory/TopReaderFactory: "
-      "(a) one bead, one frame, every (x,y,z) triple over the per-format coordinate alphabet {0, +-1 unit of the last printed digit, "
+      "(a) one bead, one frame" + std::string(thorough ? " x every box x every velocity/force flag" : "") + ", every (x,y,z) triple over the per-format coordinate alphabet {0, +-1 unit of the last printed digit, "
       "+-1.23456789, 0.5, 2.5 units, +-(just inside the field width)[, xyz: +-(filling the field width)]}; "
       "(b) full product beads 1.." + std::string(thorough ? "5" : "3") + " x frames 1.." + std::string(thorough ? "4" : "3") +
-      " x all cyclic shifts of the alphabet x boxes {orthorhombic, orthorhombic 5-decimal, triclinic lower-triangular, general 3x3 (gro, dlpoly only)} "
+      " x " + std::string(thorough ? "all" : "every second") + " cyclic shift(s) of the alphabet x boxes {orthorhombic, orthorhombic 5-decimal, triclinic lower-triangular, general 3x3 (gro, dlpoly only)} "
       "x velocity/force presence as far as the dialect stores them x 4 naming schemes (1 char, 1..5 chars with distinct types/residues, over-long 7..8 chars, element names) "
       "[x shim on/off for xyz and pdb]; (c) atom-count mismatch: frame of nb atoms read into a topology of m != nb beads at frame 0 or 1; "
       "(d) second dlpoly file of a process; (e) CRYST1 via PDBWriter::WriteBox; (f) generated xml topology + written trajectory. "
